@@ -34,22 +34,33 @@ class Ctx:
         return self.configs[config]
 
     # ---- recording
+    def _caller_source(self, depth):
+        """source text of the rule function `depth` frames up (used to see which reference functions a rule is anchored in)"""
+        import inspect
+        try:
+            fr = sys._getframe(depth + 1)
+            return inspect.getsource(fr.f_code)
+        except Exception:
+            return ""
+
     def rule(self, rid, statement):
         self.rules[rid] = statement
         self.cur = rid
+        self.__dict__.setdefault("rule_src", {})[rid] = self._caller_source(1)
         return rid
 
     def ok(self, rule, site, what):
         self.instances.append(dict(rule=rule, site=site, what=what, ok=True))
 
-    def fail(self, rule, site, what, key=None, witness=None):
-        self.instances.append(dict(rule=rule, site=site, what=what, ok=False, key=key or ("%s@%s" % (rule, site)), witness=witness))
+    def fail(self, rule, site, what, key=None, witness=None, _depth=1):
+        self.instances.append(dict(rule=rule, site=site, what=what, ok=False, key=key or ("%s@%s" % (rule, site)), witness=witness,
+                                   src=self._caller_source(_depth)))
 
     def check(self, rule, cond, site, what, key=None, witness=None):
         if cond:
             self.ok(rule, site, what)
         else:
-            self.fail(rule, site, what, key=key, witness=witness)
+            self.fail(rule, site, what, key=key, witness=witness, _depth=2)
         return cond
 
     def floor(self, rule, minimum):
@@ -81,23 +92,25 @@ class Ctx:
         for c, pr in self.configs.items():
             for nm, why in getattr(pr, "drift", {}).items():
                 drift.setdefault(nm, why)
-        drifted = {}
+        undecided, why_und = [], {}
         if drift and viol:
             import re as _re
-            text = ""
-            for fn_ in ("%s.py" % self.pid, "shared.py"):
-                try:
-                    with open(os.path.join(VERIF, "rules", fn_)) as f:
-                        text += f.read()
-                except OSError:
-                    pass
-            used = set(_re.findall(r"[A-Za-z_][A-Za-z_0-9]*", text))
-            drifted = {nm: why for nm, why in drift.items() if nm in used}
-        if drifted:
-            self.broken.append("reference function(s) this property's rules are anchored in have drifted: %s — %d rule instance(s) cannot be decided on this tree: %s" % (
-                "; ".join("%s %s" % (nm, why) for nm, why in sorted(drifted.items())), len(viol), ", ".join(sorted({v["rule"] for v in viol}))))
-            self.undecided = viol
-            viol = []
+            keep = []
+            for v in viol:
+                text = self.__dict__.get("rule_src", {}).get(v["rule"], "") + v.get("src", "")
+                used = set(_re.findall(r"[A-Za-z_][A-Za-z_0-9]*", text))
+                # a rule that asks prog.has("<name>") deals with the absence of that function itself
+                hit = {nm: why for nm, why in drift.items() if nm in used and ('has("%s")' % nm) not in text}
+                if hit:
+                    undecided.append(v)
+                    why_und.update(hit)
+                else:
+                    keep.append(v)
+            viol = keep
+        if undecided:
+            self.broken.append("reference function(s) the reporting rule(s) are anchored in have drifted: %s — %d rule instance(s) cannot be decided on this tree: %s" % (
+                "; ".join("%s %s" % (nm, why) for nm, why in sorted(why_und.items())), len(undecided), ", ".join(sorted({v["rule"] for v in undecided}))))
+            self.undecided = undecided
         reported, suppressed = [], []
         for v in viol:
             base = v["key"]
